@@ -203,7 +203,7 @@ def run(ctx):
                 res = f(*ops, **kw)
         except Exception as e:
             # a class whose dtype set does not admit the result refuses construction: allowed (ValueError)
-            if isinstance(e, ValueError) and 'dtype' in str(e).lower() and out_form == 'none':
+            if isinstance(e, ValueError) and 'dtype' in str(e).lower() and not kw:
                 ctx.count('class_rejects_result_dtype')
                 continue
             ctx.fail('ufunc_raised', inp, impl=repr(e))
